@@ -244,7 +244,7 @@ func c12RunTask(t *c12Task) *c12TaskResult {
 			res.cover("outcome", rr.Outcome)
 			res.cover("inject_context", rr.Ctx)
 			res.cover("state_after_abort", rr.State.shape())
-			if idle := (c12State{CurrEnv: rr.State.CurrEnv}); t.Check == "C12" && (rr.State.PanicFun != idle.PanicFun || rr.State.DeferOfFun != idle.DeferOfFun || rr.State.ExecFlags != idle.ExecFlags) {
+			if idle := (c12State{CurrEnv: rr.State.CurrEnv}); t.Check == "C12" && (rr.State.PanicFun != idle.PanicFun || rr.State.DeferOfFun != idle.DeferOfFun) {
 				// the per-goroutine defer/panic bookkeeping still refers to the aborted evaluation: a later recover()
 				// in a frame that happens to match would return the old panic value
 				p.violation("run-state-not-idle-after-abort", "", fmt.Sprintf("probe %s (%s) aborted at hook call %d: interpreter bookkeeping is %s, a fresh interpreter's is %s",
@@ -405,7 +405,7 @@ func checkC12(r *fw.Run) {
 		"a case = (probe, interpreter mode, k): the k-th dynamic hook call panics with a unique value, for EVERY k up to the N calls of an uninjected run, all in one interpreter; distinct = cases whose k-th call was actually reached; " +
 		"oracle = afterwards a fixed battery of " + fmt.Sprint(len(c12Battery)) + " evaluations (defer order, recover at depth 1/2, recover without panic, fresh panic value, named results, closure state, nested Eval, redefinition, single-step call depth, direct call from Go) gives item by item the answers of a lock-step reference interpreter that never ran the probe")
 	r.Assume("the reference interpreter (same definitions, same battery history, never ran a probe) is a valid stand-in for 'had the aborted evaluation never run'; its first battery run is additionally checked against the answers of compiled Go")
-	r.Assume("after an aborted evaluation the defer/panic bookkeeping of the goroutine's Run (ExecFlags, DeferOfFun, PanicFun) must be idle, as in a new interpreter: a stale PanicFun makes a later recover() in a matching frame return the old panic value; the other Run fields are recorded (table state_after_abort), not asserted")
+	r.Assume("after an aborted evaluation the defer/panic bookkeeping of the goroutine's Run (DeferOfFun, PanicFun) must be idle, as in a new interpreter: a stale PanicFun makes a later recover() in a matching frame return the old panic value; the other Run fields are recorded (table state_after_abort), not asserted")
 	if c12Replayed(r) {
 		return
 	}
